@@ -166,3 +166,24 @@ Print Assumptions C44_nonvacuous.
 Theorem C44_nonvacuous_nr : non_reentrant picky.
 Proof. exact picky_nr. Qed.
 Print Assumptions C44_nonvacuous_nr.
+
+(* Listener lifetimes.  subscriptions / receivers hold weak references; [Drop l] garbage-collects the callables of
+   listener l (their entries become None).  [targets s U] -- the exact list of listeners that every theorem above
+   says is called, once each and in order, by a send with updated-set U -- is a filter-then-map over the LIVE
+   entries: dead entries, wherever they sit, change nothing; a listener is a target iff it has a live interested
+   subscription or a live receiver entry; and dropping l removes exactly the calls of l, every other live callable
+   keeps its place and multiplicity (so no live listener is ever skipped because a neighbour died). *)
+Theorem C44_dead_entries_ignored : forall s u, targets (purge s) u = targets s u.
+Proof. exact targets_ignore_dead. Qed.
+Print Assumptions C44_dead_entries_ignored.
+
+Theorem C44_targets_are_the_live_listeners : forall s u l,
+  In l (targets s u) <->
+  (exists o, In (Some l, o) (subscriptions s) /\ intersects o u = true) \/ In (Some l) (receivers s).
+Proof. exact targets_live_iff. Qed.
+Print Assumptions C44_targets_are_the_live_listeners.
+
+Theorem C44_drop_removes_only_its_own_calls : forall l s u,
+  targets (fst (drop l s)) u = filter (fun x => negb (N.eqb x l)) (targets s u).
+Proof. exact drop_targets. Qed.
+Print Assumptions C44_drop_removes_only_its_own_calls.
